@@ -52,6 +52,13 @@ pub enum Class {
     RebindArgument,
     /// a variable occurrence under a new innermost *label* of the same name
     RebindVarAsLabel,
+    /// the first binder of one clause (the first / second clause that has binders) is renamed to a
+    /// fresh name, that clause's body becomes `exit 0`, and the body of the next / previous clause
+    /// (cyclically) becomes that fresh name: a binder used in a sibling clause
+    SiblingBinderNext0,
+    SiblingBinderPrev0,
+    SiblingBinderNext1,
+    SiblingBinderPrev1,
 }
 
 /// Classes that need the twin declarations (`TWIN`) in front of the program.
@@ -61,7 +68,11 @@ pub const FOREIGN_CLASSES: [Class; 6] = [Class::ForeignCtor, Class::ForeignClaus
 /// type arguments the generated programs use most.
 const TWIN: &str = "data TwList[A] { TwNil, TwCons(x: A, xs: TwList[A]) }\ncodata TwFun[A, B] { twap(x: A): B }\ndef tw_use(l: TwList[i64], f: TwFun[i64, i64], ll: TwList[TwList[i64]]): i64 { l.case[i64] { TwNil => f.twap[i64, i64](0), TwCons(x, xs) => ll.case[TwList[i64]] { TwNil => x, TwCons(y, ys) => 1 } } }\n";
 
-pub const CLASSES: [Class; 24] = [
+pub const CLASSES: [Class; 28] = [
+    Class::SiblingBinderNext0,
+    Class::SiblingBinderPrev0,
+    Class::SiblingBinderNext1,
+    Class::SiblingBinderPrev1,
     Class::CallArgMinus,
     Class::CallArgPlus,
     Class::CtorArgMinus,
@@ -115,6 +126,23 @@ fn any_type_term(t: &Term) -> bool {
         Term::Case(c) => !c.clauses.is_empty() && c.clauses.iter().all(|cl| any_type_term(&cl.body)),
         _ => false,
     }
+}
+
+fn sibling_binder(class: Class, clauses: &mut Vec<fun::syntax::terms::Clause>) -> bool {
+    let (which, next) = match class {
+        Class::SiblingBinderNext0 => (0, true),
+        Class::SiblingBinderPrev0 => (0, false),
+        Class::SiblingBinderNext1 => (1, true),
+        _ => (1, false),
+    };
+    let with_binders: Vec<usize> = clauses.iter().enumerate().filter(|(_, c)| !c.context_names.bindings.is_empty()).map(|(i, _)| i).collect();
+    let Some(&i) = with_binders.get(which) else { return false };
+    let n = clauses.len();
+    let j = if next { (i + 1) % n } else { (i + n - 1) % n };
+    clauses[i].context_names.bindings[0] = "zz_sibling".into();
+    clauses[i].body = fun::syntax::terms::Exit { span: span(), arg: std::rc::Rc::new(lit(0)), ty: None }.into();
+    clauses[j].body = XVar { span: span(), var: "zz_sibling".into(), ty: None, chi: None }.into();
+    true
 }
 
 fn last_var_arg(args: &[Term]) -> Option<String> {
@@ -221,6 +249,8 @@ fn apply(t: &mut Term, class: Class) -> bool {
             n.clauses.push(extra);
             true
         }
+        (Class::SiblingBinderNext0 | Class::SiblingBinderPrev0 | Class::SiblingBinderNext1 | Class::SiblingBinderPrev1, Term::Case(c)) if c.clauses.len() >= 2 => sibling_binder(class, &mut c.clauses),
+        (Class::SiblingBinderNext0 | Class::SiblingBinderPrev0 | Class::SiblingBinderNext1 | Class::SiblingBinderPrev1, Term::New(n)) if n.clauses.len() >= 2 => sibling_binder(class, &mut n.clauses),
         (Class::DuplicateClause, Term::Case(c)) if !c.clauses.is_empty() => {
             let dup = c.clauses[0].clone();
             c.clauses.push(dup);
@@ -589,6 +619,30 @@ fn program_level(prog: &Program) -> Vec<(&'static str, Program)> {
                 }
                 if applied {
                     out.push((if minus { "missing-type-argument-in-declaration" } else { "extra-type-argument-in-declaration" }, p));
+                }
+            }
+            // an undeclared name (neither a type nor a type parameter in scope) in place of the type,
+            // and in place of its last type argument (one level down: `List[Zzz9]`)
+            for nested in [false, true] {
+                let mut p = prog.clone();
+                let mut applied = false;
+                {
+                    let mut ss = sites(&mut p);
+                    let undeclared = Ty::mk_decl("Zzz9", fun::syntax::types::TypeArgs::mk(vec![]));
+                    if nested {
+                        if let Ty::Decl { type_args, .. } = &mut *ss[i] {
+                            if let Some(last) = type_args.args.last_mut() {
+                                *last = undeclared;
+                                applied = true;
+                            }
+                        }
+                    } else {
+                        *ss[i] = undeclared;
+                        applied = true;
+                    }
+                }
+                if applied {
+                    out.push((if nested { "undeclared-type-argument-in-declaration" } else { "undeclared-type-in-declaration" }, p));
                 }
             }
         }
